@@ -43,7 +43,19 @@ def canon_text(t: str):
             except Exception:
                 units = lines[:k]
             comments = [l for l in lines[:k] if l.strip().startswith(("//", "#")) or l.strip().startswith("/*")]
-            return [sorted(units) + sorted(comments), lines[k:]]
+            # the summary block at the top (a block comment / a string literal): its groups come in the order of a set, so it is
+            # compared as a multiset of LINES; what a line says must not depend on the history or the hash seed
+            summary, inside = [], False
+            for l in lines[:k]:
+                s = l.strip()
+                if not inside and (s.startswith("/*") or s.startswith("'''") or s.startswith('"""')):
+                    inside = True
+                    continue
+                if inside and (s.endswith("*/") or s.startswith("'''") or s.startswith('"""')):
+                    break
+                if inside and s:
+                    summary.append(l.rstrip())
+            return [sorted(units) + sorted(comments) + ["--summary--"] + sorted(summary), lines[k:]]
     return [sorted(lines), []]
 
 
@@ -158,6 +170,12 @@ def run(ctx):
         hdoc.append(["line", ["D", "D0", None, None, [["D", r3, None, "GSpline.EFF", [A.two_body(rng, r2), ["D", b, None, None, []]]],
                                                       ["D", A.BACHELOR[r3], None, None, []]]]] + A.coupling(rng))
     hdoc.append(["line", ["D", "D0", None, None, [A.two_body(rng, "K*(892)bar0"), A.two_body(rng, "PiPi00")]]] + A.coupling(rng))
+    # several amplitudes of one spin configuration whose top-level orbital momentum differs (written out as P and D, and left to
+    # the default): whatever is said about the group must not depend on the order a set happens to have
+    r2, b = A.CASCADE["K(1)(1270)bar-"][0]
+    for top in ("D", "P", None, "D"):
+        hdoc.append(["line", ["D", "D0", top, None, [["D", "K(1)(1270)bar-", None, None, [A.two_body(rng, r2), ["D", b, None, None, []]]],
+                                                     ["D", "pi+", None, None, []]]]] + A.coupling(rng))
     hdoc += A.required_families(hdoc, rng)
     hpath = os.path.join(tmp, "hashseed.txt")
     open(hpath, "w").write(A.render_amp(hdoc))
